@@ -6,7 +6,7 @@ def runs(quick, thorough):
 
 PROPS = {
     "C01": dict(
-        extra_modules=["CstModel.Props.GenBuilder2"],   # Gen.b_*_raw: token / static_token / finish_node / finish as transcribed from the source
+        extra_modules=["CstModel.Props.GenBuilder2", "CstModel.Props.GenBuilder3"],   # Gen.b_*_raw: token / static_token / finish_node / finish as transcribed from the source
         runs=runs([("build", "release")],
                   [("build", "release"), ("build", "lasso"), ("build", "debug")]),
         rule="cases = real Fx collision witness per back end + every tree with <= 4 (thorough 5) elements over 2 node kinds x 6 token forms "
@@ -255,7 +255,7 @@ PROPS = {
         not_yet_proved=[],
     ),
     "C20": dict(
-        extra_modules=["CstModel.Props.GenIntern", "CstModel.Props.GenBuilder2"],   # Gen.b_*_raw: token / static_token / finish_node / finish as transcribed from the source
+        extra_modules=["CstModel.Props.GenIntern", "CstModel.Props.GenBuilder2", "CstModel.Props.GenBuilder3"],   # Gen.b_*_raw: token / static_token / finish_node / finish as transcribed from the source
         tags=["C20", "C04", "C01"],   # "as if the failed token had never been offered" includes the cache's sharing and the finished tree
         runs=runs([("faults", "release")],
                   [("faults", "release"), ("faults", "lasso"), ("faults", "debug")]),
